@@ -131,16 +131,60 @@ def verdict(i, m):
     return None
 
 
-def drop_row(dline, q, k):
+def drop_rows(dline, q, lo, hi):
+    """the dataset without rows lo..hi-1 and the query with its iterator order renumbered"""
     f = dline.split()
     n, nc = int(f[1]), int(f[2])
     rows = [f[3 + i * (nc + 1): 3 + (i + 1) * (nc + 1)] for i in range(n)]
-    del rows[k]
-    d2 = " ".join(["D", str(n - 1), str(nc)] + [t for r in rows for t in r])
+    del rows[lo:hi]
+    d2 = " ".join(["D", str(len(rows)), str(nc)] + [t for r in rows for t in r])
     order = [] if q["order"] == "-" else [int(x) for x in q["order"].split(",")]
-    order = [x - 1 if x > k else x for x in order if x != k]
+    order = [x - (hi - lo) if x >= hi else x for x in order if not lo <= x < hi]
     q2 = dict(q, order=",".join(str(x) for x in order) if order else "-")
     return d2, q2
+
+
+def drop_row(dline, q, k):
+    return drop_rows(dline, q, k, k + 1)
+
+
+def show_cell(tok):
+    """a cell token in readable form (the replay keeps the exact token)"""
+    k, rest = tok[0], tok[1:]
+    try:
+        if k == "T":
+            sec, nsec = (int(x) for x in rest.split(":"))
+            if -62135596800 <= sec <= 253402300799:
+                import datetime
+                t = datetime.datetime(1970, 1, 1) + datetime.timedelta(seconds=sec)
+                return "%s.%09dZ" % (t.strftime("%Y-%m-%dT%H:%M:%S").rjust(19, "0"), nsec)
+            return "unix %d s + %d ns (outside the years 1-9999)" % (sec, nsec)
+        if k == "F":
+            import struct
+            return repr(struct.unpack(">d", bytes.fromhex(rest))[0])
+        if k == "S":
+            b = b"" if rest == "-" else bytes.fromhex(rest)
+            return repr(b)[1:] if len(b) <= 24 else "%s... (%d bytes)" % (repr(b[:12])[1:], len(b))
+        if k == "I":
+            return rest
+    except Exception:
+        pass
+    return {"N": "null", "B1": "true", "B0": "false"}.get(tok, tok)
+
+
+def show_keys(dline, q, limit=6):
+    """the sort-key values of the (few) objects of a minimal case: `id{ft=...}`"""
+    f = dline.split()
+    n, nc = int(f[1]), int(f[2])
+    cols = [int(c) for c, _, _ in q["sort"] if c != "id"]
+    if not cols or n == 0 or n > limit:
+        return ""
+    names = ["fs", "fi", "fj", "ff", "fb", "ft", "keep", "grp"]
+    out = []
+    for i in range(n):
+        row = f[3 + i * (nc + 1): 3 + (i + 1) * (nc + 1)]
+        out.append("%s{%s}" % (row[0], ", ".join("%s=%s" % (names[c] if c < len(names) else c, show_cell(row[1 + c])) for c in cols)))
+    return "; sort keys: " + " ".join(out)
 
 
 def key_of(q, v, legacy):
@@ -150,13 +194,44 @@ def key_of(q, v, legacy):
     return classify(q, got, want, legacy, side)
 
 
+def less_skip(q, k):
+    """the query with its (positive, small) skip reduced by k; the same query when that is not possible"""
+    try:
+        sk = int(q["skip"])
+    except ValueError:
+        return q
+    if k <= 0 or sk < k or sk >= 2 ** 31:
+        return q
+    return dict(q, skip=str(sk - k))
+
+
 def shrink(runner, dline, q, key):
+    tried = set()
+
     def still_bad(d2, q2):
+        case = d2 + "\n" + build_query(q2)
+        if case in tried:
+            return False
+        tried.add(case)
         impl, modl, _ = runner.run([d2, build_query(q2)])
         if not impl or len(impl) != 2:
             return False
         v = verdict(impl[1], modl[1])
         return v is not None and key_of(q2, v, fields(modl[1])["legacy"]) == key
+    # large collections (the extreme-value ones): remove blocks of rows first, halving the block size
+    size = int(dline.split()[1]) // 2
+    while size >= 2:
+        lo = 0
+        while lo < int(dline.split()[1]):
+            hi = min(lo + size, int(dline.split()[1]))
+            d2, q2 = drop_rows(dline, q, lo, hi)
+            if still_bad(d2, q2):
+                dline, q = d2, q2
+            elif still_bad(d2, less_skip(q2, hi - lo)):
+                dline, q = d2, less_skip(q2, hi - lo)
+            else:
+                lo += size
+        size //= 2
     changed = True
     while changed:
         changed = False
@@ -164,6 +239,9 @@ def shrink(runner, dline, q, key):
             d2, q2 = drop_row(dline, q, k)
             if still_bad(d2, q2):
                 dline, q, changed = d2, q2, True
+                break
+            if still_bad(d2, less_skip(q2, 1)):      # a row in front of the page: the page moves up with it
+                dline, q, changed = d2, less_skip(q2, 1), True
                 break
         if changed:
             continue
@@ -194,7 +272,7 @@ def main(argv):
         "(typed scalar filter nodes of the ast package) + the C02 models (comparators, setPaging, bounded tree)",
         "objectz comparators / setPaging / memSortingScanner are textual copies of the boltz ones and share their model",
         "extraction (ExtrOcamlBasic only) + extraction/c19_driver.ml + drv_common.ml",
-        "Go harness cmd/storageharness/c19.go + c02.go (generators, filter printer, float literal conversion) and this comparison",
+        "Go harness cmd/storageharness/c19.go + c19ext.go + c02.go (generators, filter printer, float literal conversion) and this comparison",
     ]
     c.assumptions = [
         "object ids are unique; the bolt store holds the same values with the symbol's own field type",
@@ -278,6 +356,7 @@ def main(argv):
         if v2:
             what += "; minimal: `%s` on %s object(s): %s, expected %s (object store %s, bolt store %s)" % (
                 text, d2.split()[1], v2[1], v2[2], fields(impl2[1])["objectz"], fields(impl2[1])["boltz"])
+            what += show_keys(d2, q2)
         c.violation(key, what, dict(case=d2 + "\n" + build_query(q2), query_text=text,
                                     impl=impl2[1] if impl2 else i, model=modl2[1] if modl2 else m,
                                     original_case=dline + "\n" + case, side=side))
@@ -288,12 +367,20 @@ def main(argv):
     c.cov["both_stores_panic"] = both_panic
     c.cov["unmodelled_filters"] = unmodelled
     c.cov["violation_classes"] = reported
-    c.cov["rule"] = ("per collection (0..12 objects, fields of the five scalar types + id, 0-60% nulls, value pools with ties): "
+    c.cov["rule"] = ("per ordinary collection (0..12 objects, fields of the five scalar types + id, 0-60% nulls, value pools with ties): "
                      "(1) the full paging grid skip x limit (99 points) for `true` in default order and for a null test under a sort; "
                      "(2) every atom kind x operator x column once unpaged and once with a random sort and page "
                      "(= != < <= > >= null-tests contains/icontains in between bool-symbol, negated forms); "
                      "(3) random and/or/not combinations (depth <= 3) x random 0..5-key sorts x random grid points; "
-                     "(4) a few filters outside the model (both stores must agree). The same text goes to ObjectStore.QueryEntities "
+                     "(4) a few filters outside the model (both stores must agree). "
+                     "Collections of extreme field values (c19ext.go: one fixed collection holding every pool value + random ones; "
+                     "datetimes over the whole time.Time range incl. the int64 ns/us/ms boundaries 1677/2262, the zero time, 2400, 9999-12-31, year 10000, "
+                     "sub-second neighbours; int64 min/max, +-2^53, 2^31/2^32; float +-Inf/+-Max/subnormals/+-0/float32 limits/1-ulp neighbours; "
+                     "empty, NUL, 0xff and 300/5000-byte strings differing in the last byte (thorough: 70000 bytes); nil and absent fields): "
+                     "(x1) every column ascending and descending, alone and as second key behind a column with ties, unpaged and read back "
+                     "page by page (skip k limit 1 for every k, pages of 3, first/last, skip without limit); (x2) every atom kind x operator x column "
+                     "with literals at the extremes, unpaged and sorted by that column with a page; (x3) random composite filters x sorts x pages. "
+                     "The same text goes to ObjectStore.QueryEntities "
                      "(objects delivered in a shuffled order) and to QueryIds of a bolt store loaded with the same values. "
                      "Non-trivial: modelled filter, at least one matching object, and a filter/sort/skip/limit clause; distinct by (collection, query)")
     c.cov["samples"] = samples
